@@ -284,6 +284,11 @@ def run_check(prop_id, tier, seed):
             print("harness error: unknown excluded class", n)
             return 2
 
+    # import the compiler once in the parent so that forked shard processes share it
+    from . import execute as _x  # noqa: F401
+    import teaal.trans.hifiber  # noqa: F401
+    import teaal.parse  # noqa: F401
+
     total = ShardResult()
     per_part = {}
     jobs = []
@@ -291,7 +296,7 @@ def run_check(prop_id, tier, seed):
         b = part.budget(tier)
         for k in range(b["shards"]):
             jobs.append((check_mod, pi, tier, seed, k, excluded_names))
-    nproc = min(len(jobs), int(os.environ.get("VERIF_PROCS", "16" if tier == "thorough" else "4")))
+    nproc = min(len(jobs), int(os.environ.get("VERIF_PROCS", "16" if tier == "thorough" else "8")))
     results = []
     if nproc <= 1:
         for j in jobs:
